@@ -50,7 +50,7 @@ func ruleC04_8(c *Ctx) {
 		case "ValidGradient":
 			want = sym.And(sym.Bin(token.EQL, a, k(0), nil), sym.Bin(token.NEQ, sym.Bin(token.AND, b, k(0x80), u8), k(0), nil))
 		}
-		ok := equivalent(res, want)
+		ok := equivalent(normCmp(res), normCmp(want))
 		if !ok {
 			// other spellings of the comparisons: a >= r for r <= a, b >= 0x80 / b&0x80 == 0x80 for the bit test
 			alt := res
@@ -59,12 +59,44 @@ func ruleC04_8(c *Ctx) {
 				{sym.Bin(token.GEQ, a, g, nil), sym.Bin(token.LEQ, g, a, nil)},
 				{sym.Bin(token.GEQ, a, b, nil), sym.Bin(token.LEQ, b, a, nil)},
 				{sym.Bin(token.GEQ, b, k(0x80), nil), sym.Bin(token.NEQ, sym.Bin(token.AND, b, k(0x80), u8), k(0), nil)},
+				{sym.Bin(token.LSS, b, k(0x80), nil), sym.Bin(token.EQL, sym.Bin(token.AND, b, k(0x80), u8), k(0), nil)},
+				{sym.Bin(token.GTR, b, k(0x7f), nil), sym.Bin(token.NEQ, sym.Bin(token.AND, b, k(0x80), u8), k(0), nil)},
 				{sym.Bin(token.EQL, sym.Bin(token.AND, b, k(0x80), u8), k(0x80), nil), sym.Bin(token.NEQ, sym.Bin(token.AND, b, k(0x80), u8), k(0), nil)},
 			} {
 				alt = sym.Subst(alt, pr[0], pr[1])
 			}
-			ok = equivalent(alt, want)
+			ok = equivalent(normCmp(alt), normCmp(want))
 		}
 		R.Check(ok, "ivg."+name, c.FPos(fn), shortKey(want), shortKey(res))
 	}
+}
+
+// normCmp spells every ordering comparison with <= : x < y as not(y <= x), x > y as not(x <= y), x >= y as y <= x
+// (exact for integers), so that the propositional layer sees one atom per pair of operands whatever the source wrote.
+func normCmp(t *sym.Term) *sym.Term {
+	if t == nil || len(t.Args) == 0 {
+		return t
+	}
+	args := make([]*sym.Term, len(t.Args))
+	changed := false
+	for i, a := range t.Args {
+		args[i] = normCmp(a)
+		if args[i] != a {
+			changed = true
+		}
+	}
+	if t.Op == "bin" && len(args) == 2 {
+		switch t.Name {
+		case "<":
+			return sym.Not(sym.Bin(token.LEQ, args[1], args[0], t.T))
+		case ">":
+			return sym.Not(sym.Bin(token.LEQ, args[0], args[1], t.T))
+		case ">=":
+			return sym.Bin(token.LEQ, args[1], args[0], t.T)
+		}
+	}
+	if !changed {
+		return t
+	}
+	return sym.Rebuild(t, args)
 }
